@@ -17,6 +17,11 @@ structure Matcher where
   /-- length of the text the action of `rule` sees when the rule matched the first `len` bytes
       (differs from `len` only for trailing-context rules) -/
   headLen : (rule len : Nat) → List UInt8 → Nat
+  /-- length of the text `YY_DO_BEFORE_ACTION` sees first, which a `%array` scanner checks against
+      `YYLMAX`: the whole match, trailing context included (the action of a rule with fixed
+      trailing context backs up afterwards) — except for rules with *variable* trailing context,
+      where `yy_find_action` has walked back to the end of the head before -/
+  fitLen : (rule len : Nat) → List UInt8 → Nat := fun _ len _ => len
   /-- number of bytes of the input the automaton can consume before it jams (the look-ahead the
       generated scanner may have in its buffer when it checks `YYLMAX`, finding F28) -/
   scan : (sc : Nat) → (bol : Bool) → List UInt8 → Nat := fun _ _ _ => 0
@@ -154,8 +159,8 @@ inductive ActEnd
 /-- announce the match of `rule` on the first `len` bytes of `inp` and set up the token -/
 def beginMatch (M : Matcher) (cfg : Cfg) (s : AState) (inp : List UInt8) (len rule : Nat)
     (prefix_ : List UInt8) : AState :=
-  -- %array: the matched text (before any trailing-context split) plus its NUL must fit yytext
-  if cfg.yylmax != 0 && prefix_.length + len ≥ cfg.yylmax then s.fatal "yylmax" else
+  -- %array: the text set up first (`fitLen`) plus its NUL must fit yytext
+  if cfg.yylmax != 0 && prefix_.length + M.fitLen rule len inp ≥ cfg.yylmax then s.fatal "yylmax" else
   let hl := M.headLen rule len inp
   let newPart := inp.take hl
   let text := prefix_ ++ newPart
